@@ -92,6 +92,7 @@ void harness(void)
 #ifdef PREFIX
     { static const char pre[] = PREFIX; for(unsigned i = 0; i < sizeof(pre) - 1 && i < N; i++) buf[i] = pre[i]; }
 #endif
+    RT_BEGIN();
     size_t l = rtosc_message_length(buf, N);
     CHECK(l == 0 || l <= N, "C07 reported length is 0 or at most n");
     ref_decode((const unsigned char *)buf, N, &R);
@@ -145,5 +146,6 @@ void harness(void)
 #else
     if(l) WITNESS("C07 nonzero length");
 #endif
+    RT_END();
     WITNESS("C07 end");
 }
